@@ -80,10 +80,5 @@ impl Write for fs::File {
     #[verifier::external_body] fn write(&mut self, buf: &[u8]) -> (r: io::Result<usize>) { unimplemented!() }
     #[verifier::external_body] fn flush(&mut self) -> (r: io::Result<()>) { unimplemented!() }
 }
-// io::copy(reader, file): ASSUMED std semantics (read until Ok(0), write_all each chunk); touches only the two objects
-#[verifier::external_body]
-pub fn shim_copy_to_file<R: Read>(r: &mut R, w: &mut fs::File) -> (res: io::Result<u64>)
-    requires old(r).g_ready(),
-{ unimplemented!() }
 #[verifier::external_body]
 pub fn shim_str_ends_with_slash(s: &str) -> (b: bool) ensures b == (s@.len() > 0 && s@.last() == '/') { s.ends_with('/') }
